@@ -179,3 +179,13 @@ Definition StatText (data : option lvalue) (depth maxItem : Z) (o : sopt) : opti
   | None => None
   | Some lines => Some (join_nl lines)
   end.
+
+(** the variadic [opts ...interface{}]: [if len(opts) > 0 { opt = opts[0].(Opt) }] — only the first
+    option is looked at; [None] = a value that is not an [Opt] (the type assertion panics, before
+    anything is measured) *)
+Definition StatOpts (data : option lvalue) (depth maxItem : Z) (opts : list (option sopt)) : option (list Z) :=
+  match opts with
+  | [] => StatText data depth maxItem no_opt
+  | Some o :: _ => StatText data depth maxItem o
+  | None :: _ => None
+  end.
